@@ -1231,3 +1231,97 @@ Proof.
 Qed.
 
 End Statements.
+
+(* ---- zero rules ---- *)
+Section Zero.
+Variable f : Z -> Z -> Z.
+Variable cf : cfg.
+
+Lemma spec_result_rules :
+  (spec_result f cf [] = if c_has_zero cf then Some (c_zero cf) else None) /\
+  (forall v, spec_result f cf [v] = if c_has_zero cf then Some (f v (c_zero cf)) else Some v) /\
+  (forall vals, 2 <= length vals -> spec_result f cf vals = fold1 f vals).
+Proof.
+  repeat split; intros; try reflexivity.
+  destruct vals as [|a [|b r]]; simpl in *; try lia. reflexivity.
+Qed.
+
+(* once two are live, every combiner present holds the fold of a segment of the live values: the
+   zero is not an operand anywhere in the tree *)
+Lemma zero_not_in_tree st L vals k combs : tree_inv f cf st L vals k combs -> 2 <= length L ->
+  forall j u, 1 <= j -> j <= k -> u < 2 ^ (k - j) -> present combs (pos k j u) = true ->
+    sem_at f L vals k combs j u.
+Proof.
+  intros [T1 T2 T3 [T4 T4'] T5] Hl j u H1 H2 H3 Hp.
+  assert (Hq : pos k j u < internals (2 ^ k)) by (apply pos_internal; assumption).
+  destruct (T5 _ Hq Hp j u H1 H2 H3 eq_refl) as [G _]. apply G.
+  rewrite (T4' _ Hq) in Hp. apply (needed_iff cf L k T2 j u H1 H2 H3) in Hp.
+  destruct Hp as [[_ [_ Hone]]|Hn]; [lia|exact Hn].
+Qed.
+
+End Zero.
+
+Lemma order_independent f cf :
+  (forall a b c, f (f a b) c = f a (f b c)) -> (forall a b, f a b = f b a) -> c_lifted cf = true ->
+  forall st1 L1 vals1 k1 combs1 st2 L2 vals2 k2 combs2,
+  tree_inv f cf st1 L1 vals1 k1 combs1 -> tree_inv f cf st2 L2 vals2 k2 combs2 ->
+  Permutation vals1 vals2 ->
+  src_value cf st1 combs1 (agg_src cf L1 combs1 (root_aggregate (c_has_zero cf) (2 ^ k1) (length L1) (length combs1))) =
+  src_value cf st2 combs2 (agg_src cf L2 combs2 (root_aggregate (c_has_zero cf) (2 ^ k2) (length L2) (length combs2))).
+Proof.
+  intros Ha Hc Hl st1 L1 vals1 k1 combs1 st2 L2 vals2 k2 combs2 T1 T2 HP.
+  rewrite (tree_inv_result f cf st1 L1 vals1 k1 combs1 T1), (tree_inv_result f cf st2 L2 vals2 k2 combs2 T2).
+  apply spec_result_perm; assumption.
+Qed.
+
+(* ---- a concrete inhabitant of the invariant and of the hypotheses of the cycle lemma ---- *)
+Definition ex_cf : cfg := mkCfg false true false 0%Z.
+Definition ex_store (v1 : Z) : store := mkStore 8 [2; 3; 4; 5; 6; 7] [] [(0, (10%Z, 1%Z)); (1, (11%Z, v1))] true.
+Definition ex_leaves : list leaf := [mkLeaf 10%Z 0; mkLeaf 11%Z 1].
+Definition ex_combs (out : Z) : list (option comb) := [Some (mkComb SNone SNone (Some out) false)].
+
+Lemma ex_leaf_vals v1 : leaf_vals (ex_store v1) ex_leaves [1%Z; v1].
+Proof.
+  split; [reflexivity|]. intros i lf H. destruct i as [|[|i]]; simpl in H.
+  - injection H as <-. exists 1%Z. split; reflexivity.
+  - injection H as <-. exists v1. split; reflexivity.
+  - destruct i; discriminate H.
+Qed.
+
+Lemma ex_tree_inv v1 : tree_inv Z.add ex_cf (ex_store v1) ex_leaves [1%Z; v1] 1 (ex_combs (1 + v1)%Z).
+Proof.
+  constructor.
+  - apply ex_leaf_vals.
+  - simpl. lia.
+  - intros _. lia.
+  - split; [reflexivity|]. intros p Hp. assert (p = 0) by (vm_compute in Hp; lia). subst p. reflexivity.
+  - intros p Hp _. assert (p = 0) by (vm_compute in Hp; lia). subst p.
+    intros j u H1 H2 H3 E. assert (j = 1) by lia. subst j. assert (u = 0) by (simpl in H3; lia). subst u.
+    split; [|intros Hz; discriminate Hz]. intros _. eexists. split; [reflexivity|]. reflexivity.
+Qed.
+
+Definition example_inv : Prop := tree_inv Z.add ex_cf (ex_store 2%Z) ex_leaves [1%Z; 2%Z] 1 (ex_combs 3%Z).
+Lemma example_inv_holds : example_inv.
+Proof. exact (ex_tree_inv 2%Z). Qed.
+
+(* leaf 1 ticks from 2 to 64: no structural leaf, one ticked leaf; the cycle lemma yields the
+   invariant for the new values, i.e. the combiner now holds 65 *)
+Definition example_cycle : Prop :=
+  exists combs2 log w,
+    fold_left (eval_at Z.add ex_cf (ex_store 64%Z) ex_leaves (2 ^ 1))
+              (visited 1 (ex_combs 3%Z) (sort_desc_unique (concat (map (leaf_path (2 ^ 1) 1) []))) [1] [])
+              (ex_combs 3%Z, [], []) = (combs2, log, w) /\
+    tree_inv Z.add ex_cf (ex_store 64%Z) ex_leaves [1%Z; 64%Z] 1 combs2 /\
+    (forall p, present combs2 p = present (ex_combs 3%Z) p).
+Lemma example_cycle_holds : example_cycle.
+Proof.
+  unfold example_cycle.
+  apply (cycle_partial Z.add ex_cf (fun a b c => eq_sym (Z.add_assoc a b c)) eq_refl (ex_store 2%Z) (ex_store 64%Z) 1
+           ex_leaves [1%Z; 2%Z] ex_leaves [1%Z; 64%Z] (ex_combs 3%Z) [] [1] [] (ex_combs 3%Z) [] []).
+  - exact (ex_tree_inv 2%Z).
+  - apply ex_leaf_vals.
+  - simpl. lia.
+  - intros i _. reflexivity.
+  - intros i _ Hi. destruct i as [|[|i]]; simpl; try reflexivity. exfalso. apply Hi. left. reflexivity.
+  - reflexivity.
+Qed.
